@@ -200,7 +200,13 @@ let make_oracles cfg : oracles =
             t_helostr = helo; t_authname = authname; t_tlsclient = None; t_remoteinfo = None;
             t_heloname = bytes_of_str "mail.example.org"; t_version = bytes_of_str "Qsmtpd 0.39dev";
             t_esmtp = esmtp; t_cipher = None; t_chunked = false; t_first = first; t_date = bytes_of_str (String.make 31 'D') }
-          from (int_of_n relayclient = 1)) }
+          from (int_of_n relayclient = 1));
+    (* submission mode: TCPLOCALPORT (cfg port) is the regenerated port string; the date is the (masked) one of the Received: line,
+       gettimeofday() is wrapped by the harness (harness/session/wraps.c), control/msgidhost of the scratch tree *)
+    o_submission = (cfg "port" "25" = str_of_bytes submission_port);
+    o_subm_date = bytes_of_str (String.make 31 'D');
+    o_subm_stamp = bytes_of_str "1000000000.123456";
+    o_msgidhost = bytes_of_str "msgid.example.org" }
 
 let show_events (evs : event list) : string =
   let closed = ref false in
@@ -260,6 +266,7 @@ let spec_session cfgs chunks obs =
     let limits_bad = ref false in
     let auth_bad = ref false in
     let content_bad = ref false in
+    let cur_from = ref [] in       (* sender of the last accepted MAIL FROM: what a From: field added on the submission port carries *)
     let rec go = function
       | [] -> ()
       | c :: rest ->
@@ -275,8 +282,8 @@ let spec_session cfgs chunks obs =
           else if starts_with u "MAIL FROM:" then begin
             (if r / 100 = 2 then
                (match o_addr false (bytes_of_str (String.sub line 10 (String.length line - 10))) with
-                | AP_ok (a, _, _) -> emit [Note (NMail a); rep]
-                | _ -> emit [Note (NMail (bytes_of_str "?")); rep])
+                | AP_ok (a, _, _) -> cur_from := a; emit [Note (NMail a); rep]
+                | _ -> cur_from := bytes_of_str "?"; emit [Note (NMail (bytes_of_str "?")); rep])
              else emit [rep]); go rest end
           else if starts_with u "RCPT TO:" then begin
             let arg = bytes_of_str (String.sub line 8 (String.length line - 8)) in
@@ -300,7 +307,8 @@ let spec_session cfgs chunks obs =
                    if not (data_verdict_ok (maxbytes o) plines (n_of_int r2)) then limits_bad := true;
                    if r2 = 250 then
                      (match !hs with
-                      | (e, m) :: t -> hs := t; if not (handoff_msg_ok plines m) then content_bad := true;
+                      | (e, m) :: t -> hs := t; let par = { sp_on = o.o_submission; sp_date = o.o_subm_date; sp_from = !cur_from; sp_stamp = o.o_subm_stamp; sp_host = o.o_msgidhost } in
+                          if not (handoff_msg_ok par plines m) then content_bad := true;
                           emit [Handoff (e, m); Note NBoundary; Reply (n_of_int r2)]
                       | [] -> emit [Note NBoundary; Handoff ([], []); Reply (n_of_int r2)])   (* 250 without a hand-off: rejected by queue_run *)
                    else emit [Note NBoundary; Reply (n_of_int r2)];
